@@ -17,6 +17,7 @@ import (
 	"math/big"
 	"os"
 	"os/exec"
+	"path/filepath"
 	"sort"
 	"strings"
 	"sync"
@@ -43,6 +44,42 @@ func TestMain(m *testing.M) {
 		fmt.Println("LONE-HASH", runJob(j))
 		os.Exit(0)
 	}
+	if d := os.Getenv("VERIF_C18_COLD"); d != "" {
+		// cold start: the very first use of the process-wide registry happens
+		// on several goroutines at once (nothing below may touch the registry
+		// before the goroutines start)
+		var js []job
+		if err := json.Unmarshal([]byte(d), &js); err != nil {
+			fmt.Println("COLD-ERROR", err)
+			os.Exit(0)
+		}
+		coldData = map[string][]byte{}
+		for _, j := range js {
+			b, err := os.ReadFile(filepath.Join(fqx.RepoDir(), j.Path))
+			if err != nil {
+				fmt.Println("COLD-ERROR", err)
+				os.Exit(0)
+			}
+			coldData[j.Path] = b
+		}
+		start := make(chan struct{})
+		var wg sync.WaitGroup
+		hs := make([]string, len(js))
+		for i, j := range js {
+			wg.Add(1)
+			go func(i int, j job) {
+				defer wg.Done()
+				<-start
+				hs[i] = runJob(j)
+			}(i, j)
+		}
+		close(start)
+		wg.Wait()
+		for i, h := range hs {
+			fmt.Println("COLD-HASH", i, h)
+		}
+		os.Exit(0)
+	}
 	harness.Describe(
 		"jobs = (corpus file <= 16 KiB balanced over formats, format (home / probe), force, kind) where kind is 'tree' (decode.Decode + canonical dump of every value: path, range, actual, sym, description, error), or a whole CLI run 'dv' / 'V' (-V JSON) / 'torepr' with per-format options set or unset (-o); failing decodes included. A rapid-drawn schedule is a sequence of batches, each batch runs 1..16 goroutines with their own job lists (same file many times, different formats mixed), every job with its own Interp sharing the process-wide registry; built with -race. Oracle: every result hash equals the job's reference (first sequential in-process run; for a per-run sample also a lone run in a fresh process), in every order and interleaving; any race detector report fails the run. Non-trivial: a batch with >= 4 concurrent jobs of >= 2 formats, or the same job >= 3 times in one schedule; distinct = the schedule.",
 		"the Go scheduler is not owned by the harness: interleavings are explored by repetition and goroutine count only",
@@ -66,7 +103,12 @@ var (
 	dataMap  map[string][]byte
 )
 
+var coldData map[string][]byte
+
 func dataOf(path string) []byte {
+	if coldData != nil {
+		return coldData[path]
+	}
 	dataOnce.Do(func() {
 		dataMap = map[string][]byte{}
 		for _, e := range fqx.Corpus() {
@@ -201,16 +243,16 @@ func runJob(j job) (h string) {
 
 // per-format options that change the tree (set = non-default value)
 var formatOpts = map[string][]string{
-	"mp4":      {"decode_samples=false"},
-	"mp3":      {"max_unique_header_configs=1", "max_sync_seek=1"},
-	"matroska": {"decode_samples=false"},
-	"flac":     {},
-	"gzip":     {"uncompress=false"},
-	"zip":      {"uncompress=false"},
-	"tar":      {},
-	"tls":      {},
-	"pcap":     {},
-	"avi":      {"decode_samples=false"},
+	"mp4":           {"decode_samples=false"},
+	"mp3":           {"max_unique_header_configs=1", "max_sync_seek=1"},
+	"matroska":      {"decode_samples=false"},
+	"flac":          {},
+	"gzip":          {"uncompress=false"},
+	"zip":           {"uncompress=false"},
+	"tar":           {},
+	"tls":           {},
+	"pcap":          {},
+	"avi":           {"decode_samples=false"},
 	"bitcoin_block": {"has_header=true"},
 }
 
@@ -397,6 +439,62 @@ func TestOrders(t *testing.T) {
 		}
 		c.SetNonTrivial(n >= 4)
 	})
+}
+
+// cold start: fresh processes whose FIRST use of the shared registry is
+// concurrent (seed C18-2: a lazily initialised registry that is published
+// before it is complete is only visible then)
+func TestColdStart(t *testing.T) {
+	buildPool()
+	exe, err := os.Executable()
+	if err != nil {
+		t.Skip("no executable path")
+	}
+	n := harness.N(4, 40)
+	seed := harness.SeedFor("TestColdStart")
+	for k := 0; k < n; k++ {
+		var js []job
+		for len(js) < 8 {
+			seed = seed*6364136223846793005 + 1442695040888963407
+			j := treeJobs[int((seed>>33)%uint64(len(treeJobs)))]
+			js = append(js, j)
+		}
+		b, _ := json.Marshal(js)
+		cmd := exec.Command(exe, "-test.run=^$")
+		cmd.Env = append(os.Environ(), "VERIF_C18_COLD="+string(b), "VERIF_FRAG=", "GORACE=halt_on_error=0")
+		out, cerr := cmd.CombinedOutput()
+		got := map[int]string{}
+		for _, l := range strings.Split(string(out), "\n") {
+			var i int
+			var h string
+			if n, _ := fmt.Sscanf(l, "COLD-HASH %d %s", &i, &h); n == 2 {
+				got[i] = h
+			}
+		}
+		if strings.Contains(string(out), "WARNING: DATA RACE") {
+			o := string(out)
+			if len(o) > 4000 {
+				o = o[:4000]
+			}
+			if harness.Violate(t.Name(), "cold-start:data-race", "concurrent first use of the registry in a fresh process: "+o, js) {
+				t.Errorf("data race on cold start")
+			}
+			continue
+		}
+		if cerr != nil || len(got) != len(js) {
+			harness.ExtraAdd("cold_start_inconclusive", 1)
+			continue
+		}
+		for i, j := range js {
+			want := reference(j)
+			harness.Count(harness.HashInts(77, uint64(k), uint64(i), harness.E.Seed), true, "cold-start-job")
+			if got[i] != want {
+				if harness.Violate(t.Name(), "cold-start:result-differs:"+j.Kind, fmt.Sprintf("job %s run as one of 8 concurrent FIRST decodes of a fresh process gave %s, sequentially %s", j.key(), got[i], want), js) {
+					t.Errorf("cold start differs for %s", j.key())
+				}
+			}
+		}
+	}
 }
 
 // lone runs in fresh processes for a sample of jobs
